@@ -37,9 +37,9 @@ theorem lexGo_seg : ∀ (ps : List (Bool × Str)) (lit : Str) (out : List (Bool 
   | (false, t) :: r, lit, out, fuel, h, hl, hf => by
       obtain ⟨ht, hd, hh, hr⟩ := h
       have hlit : lit = [] := by
-        by_contra hne
-        have := hl hne (false, t) rfl
-        simp at this
+        cases lit with
+        | nil => rfl
+        | cons x l => exact absurd (hl (by simp) (false, t) rfl) (by simp)
       subst hlit
       simp only [segSrc, List.length_append] at hf ⊢
       rw [lexGo_text t hd fuel [] out (segSrc r) (by omega)]
@@ -68,9 +68,9 @@ theorem interpGo_seg : ∀ (ps : List (Bool × Str)) (buf : Str), SegOK ps →
   | (false, t) :: r, buf, h, hb => by
       obtain ⟨ht, _, hh, hr⟩ := h
       have hbuf : buf = [] := by
-        by_contra hne
-        have := hb hne (false, t) rfl
-        simp at this
+        cases buf with
+        | nil => rfl
+        | cons x l => exact absurd (hb (by simp) (false, t) rfl) (by simp)
       subst hbuf
       simp only [interpGo, List.nil_append]
       rw [interpGo_seg r t hr (fun _ => hh)]
@@ -96,31 +96,45 @@ theorem interpolate_seg (ps : List (Bool × Str)) (h : SegOK ps) (hm : unmodelle
 
 /-! ### `unmodelled` looks at most two characters ahead -/
 
+/-- the window of `unmodelled` at one position -/
+def win (c : Char) (r : Str) : Bool :=
+  match c, r with
+  | '\'', '\'' :: '\'' :: _ => true
+  | '"', '"' :: '"' :: _ => true
+  | '\\', '\n' :: _ => true
+  | '\\', '\r' :: _ => true
+  | _, _ => false
+
+theorem unmodelled_cons (c : Char) (r : Str) :
+    unmodelled (c :: r) = (decide (c.toNat ≥ 128) || win c r || unmodelled r) := by
+  rfl
+
+theorem win_prefix (c : Char) (a b : Str) (h : win c (a ++ b) = false) : win c a = false := by
+  match a with
+  | [] => unfold win; split <;> simp_all
+  | [d] =>
+    unfold win at h ⊢
+    split <;> simp_all
+  | d :: e :: a' =>
+    simp only [List.cons_append] at h
+    unfold win at h ⊢
+    split <;> simp_all
+
 theorem unmodelled_append_right : ∀ (a b : Str), unmodelled (a ++ b) = false → unmodelled b = false
   | [], _, h => h
   | c :: a, b, h => by
-      rw [List.cons_append, unmodelled] at h
+      rw [List.cons_append, unmodelled_cons] at h
       simp only [Bool.or_eq_false_iff] at h
       exact unmodelled_append_right a b h.2
 
 theorem unmodelled_append_left : ∀ (a b : Str), unmodelled (a ++ b) = false → unmodelled a = false
   | [], _, _ => rfl
   | c :: a, b, h => by
-      rw [List.cons_append, unmodelled] at h
+      rw [List.cons_append, unmodelled_cons] at h
       simp only [Bool.or_eq_false_iff] at h
-      have ih := unmodelled_append_left a b h.2
-      rw [unmodelled]
+      rw [unmodelled_cons]
       simp only [Bool.or_eq_false_iff]
-      refine ⟨⟨h.1.1, ?_⟩, ih⟩
-      have h2 := h.1.2
-      match a, h2 with
-      | [], _ => split <;> simp_all
-      | [d], h2 =>
-        split <;> first | rfl | (simp_all; done) | skip
-        all_goals (split at h2 <;> simp_all)
-      | d :: e :: a', h2 =>
-        simp only [List.cons_append] at h2
-        split <;> first | rfl | (split at h2 <;> simp_all)
+      exact ⟨⟨h.1.1, win_prefix c a b h.1.2⟩, unmodelled_append_left a b h.2⟩
 
 theorem unmodelled_infix (a b c : Str) (h : unmodelled (a ++ (b ++ c)) = false) : unmodelled b = false :=
   unmodelled_append_left b c (unmodelled_append_right a _ h)
